@@ -9,6 +9,7 @@
 
 use crate::tree_builder::NamespaceMap;
 use crate::QualName;
+use markup5ever::{namespace_prefix, ns};
 pub use markup5ever::serialize::{AttrRef, Serialize, Serializer, TraversalScope};
 use std::io::{self, Write};
 
@@ -108,19 +109,14 @@ impl<Wr: Write> XmlSerializer<Wr> {
         }
     }
 
-    #[inline(always)]
-    fn qual_name(&mut self, name: &QualName) -> io::Result<()> {
-        self.find_or_insert_ns(name);
-        write_qual_name(&mut self.writer, name)
-    }
-
-    #[inline(always)]
-    fn qual_attr_name(&mut self, name: &QualName) -> io::Result<()> {
-        self.find_or_insert_ns(name);
-        write_qual_name(&mut self.writer, name)
-    }
-
     fn find_uri(&self, name: &QualName) -> bool {
+        // The prefixes xml and xmlns are bound by definition and are never declared.
+        if (name.prefix == Some(namespace_prefix!("xml")) && name.ns == ns!(xml))
+            || (name.prefix == Some(namespace_prefix!("xmlns")) && name.ns == ns!(xmlns))
+        {
+            return true;
+        }
+
         let mut found = false;
         for stack in self.namespace_stack.0.iter().rev() {
             if let Some(Some(el)) = stack.get(&name.prefix) {
@@ -147,10 +143,23 @@ impl<Wr: Write> Serializer for XmlSerializer<Wr> {
     where
         AttrIter: Iterator<Item = AttrRef<'a>>,
     {
+        let attrs: Vec<AttrRef<'a>> = attrs.collect();
+
         self.namespace_stack.push(NamespaceMap::empty());
 
+        // Every namespace the tag uses must be declared by the tag itself unless an
+        // enclosing element already declares it.  That holds for the prefixes of the
+        // attributes as much as for the element name, so all of them are looked up
+        // before the declarations are written.
+        self.find_or_insert_ns(&name);
+        for (attr_name, _) in &attrs {
+            if attr_name.prefix.is_some() {
+                self.find_or_insert_ns(attr_name);
+            }
+        }
+
         self.writer.write_all(b"<")?;
-        self.qual_name(&name)?;
+        write_qual_name(&mut self.writer, &name)?;
         if let Some(current_namespace) = self.namespace_stack.0.last() {
             for (prefix, url_opt) in current_namespace.get_scope_iter() {
                 self.writer.write_all(b" xmlns")?;
@@ -167,7 +176,7 @@ impl<Wr: Write> Serializer for XmlSerializer<Wr> {
         }
         for (name, value) in attrs {
             self.writer.write_all(b" ")?;
-            self.qual_attr_name(name)?;
+            write_qual_name(&mut self.writer, name)?;
             self.writer.write_all(b"=\"")?;
             write_to_buf_escaped(&mut self.writer, value, true)?;
             self.writer.write_all(b"\"")?;
